@@ -501,6 +501,78 @@ pub fn unit_qibla(o: &mut Out, tier: &str, r: &mut Rng) {
     }
 }
 
+
+// ---------------------------------------------------------------- fmt1 / qtext (the Qibla text)
+fn hexstr(s: &str) -> String {
+    s.bytes().map(|b| format!("{:02x}", b)).collect()
+}
+
+/// `format!("{:.1}", x.abs())` against Model/Fmt.lean on bit patterns: exact ties (n + 0.25, n + 0.75)
+/// and their neighbours, carries (9.95, 99.95, 359.95), zero, subnormals, huge values, NaN and
+/// infinities, uniform angles and uniform bit patterns
+pub fn unit_fmt1(o: &mut Out, tier: &str, r: &mut Rng) {
+    let n = sizes(tier, 3000, 200000);
+    let mut pats: Vec<u64> = vec![
+        0, 1 << 63, 1, 2, 0x000fffffffffffff, 0x0010000000000000, 0x7fefffffffffffff, 0x7ff0000000000000,
+        0xfff0000000000000, 0x7ff8000000000000, 0xfff8000000000001, 0x3fa999999999999a, 0x3fb999999999999a,
+    ];
+    for k in 0..400u32 {
+        for frac in [0.05, 0.15, 0.25, 0.35, 0.45, 0.5, 0.55, 0.65, 0.75, 0.85, 0.95] {
+            let b = (k as f64 + frac).to_bits();
+            pats.extend([b, b - 1, b + 1]);
+        }
+    }
+    for e in [1e15, 4503599627370496.5, 1e16, 1e22, 1e23, 1.7976931348623157e308, 1e-5, 0.04999999999999999, 0.05, 0.95, 0.9500000000000001] {
+        pats.push(f64::to_bits(e));
+    }
+    let mut seen = std::collections::HashSet::new();
+    let mut emit = |o: &mut Out, b: u64| {
+        if seen.insert(b) {
+            o.case(format!("fmt1 {:016x}", b), hexstr(&format!("{:.1}", f64::from_bits(b).abs())));
+        }
+    };
+    for b in pats {
+        emit(o, b);
+    }
+    for i in 0..n {
+        let b = match i % 3 {
+            0 => r.range(0., 360.).to_bits(),
+            // within two ulps of a multiple of 1/20 (every rounding boundary of one decimal)
+            1 => ((r.int(0, 7200) as f64) / 20.).to_bits().wrapping_add(r.below(5)).wrapping_sub(2),
+            _ => r.next(),
+        };
+        emit(o, b);
+    }
+}
+
+/// the real `Qibla::to_string()` against the model's text of the implementation's own `degrees()` bits
+/// (the angle itself is compared by unit `qibla`)
+pub fn unit_qtext(o: &mut Out, tier: &str, r: &mut Rng) {
+    let n = sizes(tier, 3000, 100000);
+    let mut seen = std::collections::HashSet::new();
+    for i in 0..n {
+        let mut lat = gen_lat(r, 90.);
+        let mut lon = gen_lon(r);
+        if i % 5 == 0 {
+            // due north / south of the Kaaba and on its antimeridian: 0.0 and 180.0, both labels
+            lon = if r.chance(0.5) { 39.823333 } else { -140.176667 };
+        }
+        if i % 7 == 0 {
+            lat = lat.round();
+            lon = lon.round();
+        }
+        let c = Coordinates::new(
+            Latitude::try_from(lat).unwrap(),
+            Longitude::try_from(lon).unwrap(),
+            Elevation::try_from(gen_elev(r)).unwrap(),
+        );
+        let q = Qibla::new(c);
+        if seen.insert(q.degrees().to_bits()) {
+            o.case(format!("qtext {:016x}", q.degrees().to_bits()), hexstr(&q.to_string()));
+        }
+    }
+}
+
 // ---------------------------------------------------------------- bounded (number route and JSON number route)
 pub const BTYPES: [&str; 6] = ["Gmt", "Latitude", "Longitude", "Elevation", "Pressure", "Temperature"];
 
@@ -627,6 +699,8 @@ pub fn run_unit(name: &str, o: &mut Out, tier: &str, seed: u64) -> bool {
         "hijri" => unit_hijri(o, tier, &mut r),
         "daterange" => unit_daterange(o, tier, &mut r),
         "qibla" => unit_qibla(o, tier, &mut r),
+        "fmt1" => unit_fmt1(o, tier, &mut r),
+        "qtext" => unit_qtext(o, tier, &mut r),
         "bounded" => unit_bounded(o, tier, &mut r),
         "cli" => crate::f_cli::unit_cli(o, tier, &mut r),
         "f64cmp" => crate::f_bounded::unit_f64cmp(o, tier, &mut r),
